@@ -41,8 +41,8 @@ Init == /\ reg = [k \in Keys |-> NoPlugin]
         /\ nops = 0
 
 (* add_plugin_to_registry(key, plugin, registry, instance_identifier) *)
-RegisterOne(k, c) ==
-  LET f == FmtOf(k)  p == Plugin(c, f) IN
+RegisterOne(k, c, f, ident) ==     \* plugin (c, f) registered under k with instance identifier ident
+  LET p == Plugin(c, f) IN
   IF HasDot(k)
   THEN /\ last' = [op |-> "register", key |-> k, cls |-> c, fmt |-> f, err |-> "ValueError", warned |-> FALSE, ret |-> NoPlugin]
        /\ pending' = <<>>                       \* the exception aborts the loop over the remaining keys
@@ -50,22 +50,22 @@ RegisterOne(k, c) ==
   ELSE LET exists == reg[k] # NoPlugin
            key2 == IF exists THEN c ELSE k
            warned == exists /\ reg[k].cls # c
-       IN /\ reg' = [x \in Keys |-> IF x = key2 \/ x = FullKey(c, f) THEN p ELSE reg[x]]
+       IN /\ reg' = [x \in Keys |-> IF x = key2 \/ x = FullKey(c, ident) THEN p ELSE reg[x]]
           /\ first' = IF ~exists THEN [first EXCEPT ![k] = p] ELSE first
-          /\ ever' = ever \cup {p}
+          /\ ever' = IF ident = f THEN ever \cup {p} ELSE ever   \* consistent registrations (public API) only
           /\ last' = [op |-> "register", key |-> k, cls |-> c, fmt |-> f, err |-> "", warned |-> warned, ret |-> NoPlugin]
           /\ UNCHANGED pinned
 
 BeginRegister(ks, c) ==     \* register_*(format_names)(cls) : first key is processed in the same call
   /\ pending = <<>> /\ nops < MaxOps /\ Len(ks) >= 1
   /\ nops' = nops + 1
-  /\ IF HasDot(ks[1]) THEN RegisterOne(ks[1], c)
-     ELSE RegisterOne(ks[1], c) /\ pending' = [i \in 1..(Len(ks) - 1) |-> <<ks[i + 1], c>>]
+  /\ IF HasDot(ks[1]) THEN RegisterOne(ks[1], c, FmtOf(ks[1]), FmtOf(ks[1]))
+     ELSE RegisterOne(ks[1], c, FmtOf(ks[1]), FmtOf(ks[1])) /\ pending' = [i \in 1..(Len(ks) - 1) |-> <<ks[i + 1], c>>]
 
 ContinueRegister ==
   /\ pending # <<>>
   /\ LET k == pending[1][1] c == pending[1][2] IN
-       IF HasDot(k) THEN RegisterOne(k, c) ELSE RegisterOne(k, c) /\ pending' = Tail(pending)
+       IF HasDot(k) THEN RegisterOne(k, c, FmtOf(k), FmtOf(k)) ELSE RegisterOne(k, c, FmtOf(k), FmtOf(k)) /\ pending' = Tail(pending)
   /\ UNCHANGED nops
 
 (* set_plugin(key, full_plugin_name, registry) *)
@@ -105,7 +105,8 @@ TypeOK == /\ \A k \in Keys : reg[k] = NoPlugin \/ reg[k].cls \in Classes
 FirstWins == \A k \in ShortNames :
    reg[k] = IF pinned[k] # NoPlugin THEN pinned[k] ELSE first[k]
 
-(* every registered plugin remains retrievable under its full name *)
+(* every registered plugin remains retrievable under its full name (class name + instance identifier; *)
+(* through the public API the identifier is the format name)                                            *)
 FullNameReachable == \A p \in ever : reg[FullKey(p.cls, p.fmt)] = p
 
 (* a later conflicting registration warns; a non-conflicting one does not *)
